@@ -82,6 +82,10 @@ class Interp:
         context.set_logger(RecLogger(self.logs))
         return self.run(self.script, context, [])
 
+    def be_status(self, pos):
+        r = self.backend.by_pos(pos)
+        return None if r is None else r.status
+
     def exc_of(self, e):
         import re
         idmap = self.idmap
@@ -118,22 +122,24 @@ class Interp:
             if op == "cbres":
                 cb = slots[st["slot"]]
                 pos = cb._verif_pos
+                self.trace.append(["call", "cbres", pos, self.be_status(pos)])
                 try:
                     v = cb.result()
                 except Exception as e:  # noqa: BLE001
                     x = self.exc_of(e)
-                    self.trace.append(["deliver", pos, {"err": x}])
+                    self.trace.append(["deliver", pos, {"err": x}, self.be_status(pos)])
                     if not st.get("catch"):
                         raise
                     obs.append(self.obs_err(x))
                     continue
                 tok = "None" if v is None else v
-                self.trace.append(["deliver", pos, {"ok": tok}])
+                self.trace.append(["deliver", pos, {"ok": tok}, self.be_status(pos)])
                 obs.append(digest(tok))
                 continue
             n += 1
             pos = ctxpos + [n]
             name = self.name(pos)
+            self.trace.append(["call", op, pos, self.be_status(pos)])
             try:
                 if op == "step":
                     body, retry = st["body"], st.get("retry") or {"max": 1, "delays": [], "noretry": []}
@@ -204,13 +210,14 @@ class Interp:
                 else:
                     raise ValueError(op)
             except Exception as e:  # noqa: BLE001
+                from aws_durable_execution_sdk_python.exceptions import InvocationError
                 x = self.exc_of(e)
-                self.trace.append(["deliver", pos, {"err": x}])
-                if not st.get("catch"):
-                    raise
+                self.trace.append(["deliver", pos, {"err": x}, self.be_status(pos)])
+                if not st.get("catch") or isinstance(e, InvocationError):
+                    raise  # invocation-level errors are left to propagate, as the SDK requires
                 obs.append(self.obs_err(x))
                 continue
-            self.trace.append(["deliver", pos, {"ok": tok}])
+            self.trace.append(["deliver", pos, {"ok": tok}, self.be_status(pos)])
             obs.append(digest(tok))
         return "|".join(obs)
 
